@@ -121,6 +121,20 @@ def run(ctx):
             probe("tail/dropbyte", pyref.armor(body[:-1]), group=name)
             probe("tail/addbyte", pyref.armor(body + b"\0"), group=name)
             probe("tail/noct", pyref.armor(body[:olen + ml]), group=name)
+        if c:
+            # the same manipulations on a credential whose interior is an exact multiple of the block size (payload length
+            # 7 mod 16): its last cipher block is pure padding, so a change confined to it leaves the MAC'd bytes intact
+            rp, _ = cr.encode_both(uid=1234, gid=5678, cipher=c, mac=mc, zip_=0, data=b"protected interior 1234"[:23], auth_uid=ANY, ttl=300)
+            if rp and rp["error_num"] == 0:
+                pbody = hostile.unarmor(rp["data"])
+                for v in (range(256) if ctx.thorough else range(0, 256, 13)):
+                    b = bytearray(pbody); b[-1] = v
+                    if bytes(b) != pbody:
+                        probe("padblock/lastbyte", pyref.armor(bytes(b)), group=name)
+                for off in (2, bs // 2, bs - 1, bs):
+                    b = bytearray(pbody); b[-off] ^= 0x21
+                    probe("padblock/flip", pyref.armor(bytes(b)), group=name)
+                probe("padblock/dropblock", pyref.armor(pbody[:-bs]), group=name)
         # unauthorized decode of a valid credential, retry overflow, armor faults
         r2, _ = cr.encode_both(uid=1234, gid=5678, cipher=c, mac=mc, zip_=z, data=b"for uid 77 only", auth_uid=77)
         if r2 and r2["error_num"] == 0:
